@@ -1,6 +1,7 @@
 """./check configuration for C16."""
 
 PROP = dict(
+    technique='Lean two-run non-interference over an arbitrary String() on a pointer-level heap model, mask regenerated from the source; differential tie on URL pairs',
     module="GolibsVerif.Theorems.C16", namespace="GolibsVerif.C16",
     rule="pairs of URLs built from one skeleton (parsed texts and directly constructed url.URL values: opaque, IPv6 hosts, escaped "
          "paths/fragments, secrets echoed in query/fragment/path/host) with two userinfos (empty, percent-escaped, mask-like, "
